@@ -514,6 +514,8 @@ func (w *fileWeaver) stmt(outer ast.Stmt) {
 		case cNone:
 			if !labeled && w.refsGlobal(x) {
 				before(fmt.Sprintf("simrt.Yield(%s); ", w.site(x.Pos(), "glob")))
+			} else if !labeled && w.touchesShared(x) {
+				before(fmt.Sprintf("simrt.YieldMem(%s); ", w.site(x.Pos(), "mem")))
 			}
 		}
 	case *ast.SelectStmt:
@@ -658,8 +660,44 @@ func (w *fileWeaver) simple(outer ast.Stmt, st ast.Node, kind string) {
 			s := w.site(st.Pos(), "glob")
 			w.ins(outer.Pos(), fmt.Sprintf("simrt.Yield(%s); ", s))
 			w.ins(outer.End(), fmt.Sprintf("; simrt.Yield(%s)", s))
+		} else if !isLabeled && w.touchesShared(st) {
+			// plain memory reachable by other goroutines (fields, elements, pointees): a scheduling point
+			// in the runs that ask for them — this is what lets a removed or narrowed lock show
+			w.ins(outer.Pos(), fmt.Sprintf("simrt.YieldMem(%s); ", w.site(st.Pos(), "mem")))
 		}
 	}
+}
+
+// touchesShared reports whether the node reads or writes a struct field, an element of a slice, array
+// or map, or a pointee (over-approximation of "memory another goroutine may reach").
+func (w *fileWeaver) touchesShared(n ast.Node) bool {
+	found := false
+	ast.Inspect(n, func(n ast.Node) bool {
+		if found {
+			return false
+		}
+		switch x := n.(type) {
+		case *ast.FuncLit:
+			return false
+		case *ast.SelectorExpr:
+			if sel, ok := w.pkg.TypesInfo.Selections[x]; ok && sel.Kind() == types.FieldVal {
+				found = true
+			}
+		case *ast.IndexExpr:
+			if t := w.pkg.TypesInfo.TypeOf(x.X); t != nil {
+				switch t.Underlying().(type) {
+				case *types.Slice, *types.Map, *types.Array, *types.Pointer:
+					found = true
+				}
+			}
+		case *ast.StarExpr:
+			if tv, ok := w.pkg.TypesInfo.Types[x]; ok && tv.IsValue() {
+				found = true
+			}
+		}
+		return !found
+	})
+	return found
 }
 
 // refsGlobal reports whether the node mentions a package-level variable of the package being woven
@@ -717,6 +755,8 @@ func (w *fileWeaver) ifStmt(x *ast.IfStmt) {
 	}
 	if w.classExpr(x.Cond) == cNone && (x.Init == nil || w.classExpr(x.Init) == cNone) && (w.refsGlobal(x.Cond) || (x.Init != nil && w.refsGlobal(x.Init))) {
 		w.ins(x.Pos(), fmt.Sprintf("simrt.Yield(%s); ", w.site(x.Pos(), "glob")))
+	} else if w.classExpr(x.Cond) == cNone && (x.Init == nil || w.classExpr(x.Init) == cNone) && (w.touchesShared(x.Cond) || (x.Init != nil && w.touchesShared(x.Init))) {
+		w.ins(x.Pos(), fmt.Sprintf("simrt.YieldMem(%s); ", w.site(x.Pos(), "mem")))
 	}
 	// `else if` chains are reached through ast.Inspect only as nested IfStmt in Else; handle here
 	if e, ok := x.Else.(*ast.IfStmt); ok {
